@@ -19,6 +19,57 @@ Fixpoint html_walk (c : oconfig) (parent : option anode) (items : list anode) (i
   | ch :: r => html_walk c parent items (S i) r (html_element c parent ch i items st)
   end.
 
+(* ---------------------------------------------------------------- push_attribute in blocks *)
+Definition attr_out_name (c : oconfig) (a : aattr) (nm0 : str) : str :=
+  attr_name c (match oc_markup_attributes c with
+               | Some ((_ :: _) as tbl) =>
+                   match get_multi_value nm0 tbl (aa_multiple a) with
+                   | Some ((_ :: _) as m) => m
+                   | _ => nm0
+                   end
+               | _ => nm0
+               end).
+Definition attr_prefix (c : oconfig) (a : aattr) (nm0 : str) : option str :=
+  match oc_value_prefix c with
+  | Some ((_ :: _) as tbl) => get_multi_value nm0 tbl (aa_multiple a)
+  | _ => None
+  end.
+(* the value actually written and its quotes *)
+Definition attr_v1 (c : oconfig) (a : aattr) (nm0 : str) : option (list vtok) * str * str :=
+  match attr_prefix c a nm0, aa_value a with
+  | Some ((_ :: _) as pf), Some [VStr val] =>
+      let v := if is_prop_key val then pf ++ [c_dot] ++ val
+               else pf ++ [c_lbrack; c_squote] ++ val ++ [c_squote; c_rbrack] in
+      (Some [VStr v],
+       if oc_jsx c then [c_lbrace] else attr_quote c a true,
+       if oc_jsx c then [c_rbrace] else attr_quote c a false)
+  | _, _ => (aa_value a, attr_quote c a true, attr_quote c a false)
+  end.
+Definition attr_value2 (c : oconfig) (a : aattr) (name : str) (value1 : option (list vtok)) : option (list vtok) :=
+  if is_boolean_attribute c a && negb (truthy_l value1) then
+    if negb (oc_compact_boolean c) then Some [VStr name] else value1
+  else if negb (truthy_l value1) then Some caret
+  else value1.
+Definition attr_write (c : oconfig) (name : str) (value2 : option (list vtok)) (lq rq : str) (st : fstate) : fstate :=
+  let st1 := push_str c (c_space :: name) st in
+  match value2 with
+  | Some ((_ :: _) as v) => push_str c rq (push_tokens c v (push_str c (c_eq :: lq) st1))
+  | _ => if negb (str_eqb (oc_self_closing_style c) s_html)
+         then push_str c (c_eq :: lq ++ rq) st1
+         else st1
+  end.
+
+Lemma push_attribute_unfold c a st :
+  push_attribute c a st =
+  match aa_name a with
+  | Some ((_ :: _) as nm0) =>
+      let name := attr_out_name c a nm0 in
+      let '(value1, lq, rq) := attr_v1 c a nm0 in
+      attr_write c name (attr_value2 c a name value1) lq rq st
+  | _ => st
+  end.
+Proof. reflexivity. Qed.
+
 (* ---------------------------------------------------------------- blocks of element() *)
 Definition level_newline (c : oconfig) (d : Z) (st : fstate) : fstate :=
   map_out (fun o => let o' := os_add_level o d in os_push_newline_int (oc_fmt c) o' (os_level o')) st.
